@@ -87,6 +87,8 @@ step_st = st.one_of(
     st.tuples(st.just("mapg"), st.sampled_from(sorted(STATIC)), st.sampled_from(["pos", "kw", "partial"])).map(list),
     st.tuples(st.just("reduce"), st.sampled_from(["red", "red_other"])).map(list),
     st.tuples(st.just("yields"), st.sampled_from(["gen"])).map(list),
+    st.tuples(st.just("binary"), st.sampled_from(["subtract", "add"]), st.sampled_from(["fwd", "rev"])).map(list),
+    st.tuples(st.just("reduce_order"), st.sampled_from(["asc", "desc"])).map(list),
 )
 
 
@@ -110,7 +112,11 @@ def name_cases(draw):
                 s[1] = draw(st.sampled_from(sorted(STATIC)))
             else:
                 s[2] = draw(st.sampled_from(["pos", "kw", "partial"]))
-        else:
+        elif s[0] == "binary":
+            s[2] = "rev" if s[2] == "fwd" else "fwd"  # same operation, same operands, other operand order
+        elif s[0] == "reduce_order":
+            s[1] = "desc" if s[1] == "asc" else "asc"
+        elif s[0] == "reduce":
             s[1] = draw(st.sampled_from(["red", "red_other"]))
     return {"kind": "names", "shape": shape, "p1": p1, "p2": p2, "union": draw(st.sampled_from(["from_actions", "add", "graph_add"])),
             "lambda_sources": draw(st.booleans())}
@@ -150,8 +156,21 @@ def _build_chain(shape, steps, lambda_sources=False):
     for n, idx in enumerate(np.ndindex(*shape)):
         payloads[idx] = _SRC_LAMBDAS[n] if lambda_sources else _SRC_FNS[n]
     a = fluent.from_source(payloads, dims=["x", "y"], coords={"x": list(range(shape[0])), "y": list(range(shape[1]))})
+    src = a
     for s in steps:
-        if s[0] == "map":
+        if s[0] == "binary":
+            # the same binary operation over the same two operands, in either operand order
+            other = src.map(POOL["fac1"])
+            if tuple(other.nodes.dims) != tuple(a.nodes.dims) or other.nodes.shape != a.nodes.shape:
+                continue
+            a = getattr(a, s[1])(other) if s[2] == "fwd" else getattr(other, s[1])(a)
+        elif s[0] == "reduce_order":
+            d = "y" if "y" in a.nodes.dims else None
+            if d is None or a.nodes.sizes[d] < 2:
+                continue
+            sel = a if s[1] == "asc" else a.select({d: list(reversed(list(a.nodes.coords[d].values)))})
+            a = sel.reduce(POOL["red"], dim=d)
+        elif s[0] == "map":
             a = a.map(POOL[s[1]])
         elif s[0] == "mapg":
             v = STATIC[s[1]]
